@@ -358,8 +358,15 @@ func (e *evaluator) evalSelector(x *ast.SelectorExpr) *Term {
 	if sel, ok := info.Selections[x]; ok {
 		switch sel.Kind() {
 		case types.FieldVal:
-			base := e.eval(x.X)
 			fld := sel.Obj().(*types.Var)
+			// a context or keeper carried in a struct field is still the context / the keeper
+			if isCtxType(fld.Type()) {
+				return atom("ctx").withType(fld.Type())
+			}
+			if isKeeperType(fld.Type()) {
+				return atom("K").withType(fld.Type())
+			}
+			base := e.eval(x.X)
 			// k.feeCollectorName etc.: keeper fields
 			if base.IsAt("K") {
 				return atom("K." + fld.Name()).withObj(fld).withType(fld.Type())
@@ -380,7 +387,16 @@ func (e *evaluator) evalSelector(x *ast.SelectorExpr) *Term {
 			}
 			return simplify((&Term{Op: name, A: []*Term{base}}).withObj(fld).withType(fld.Type()))
 		case types.MethodVal:
-			// method value (not a call)
+			// method value (not a call): a module method with a body is a function value bound to its receiver
+			if fo, ok := sel.Obj().(*types.Func); ok {
+				if g := e.p.FuncByObj[fo]; g != nil && g.Body != nil {
+					recv := e.eval(x.X)
+					if recv.IsAt("K") || recv.IsAt("ctx") {
+						return mk("func", atom(g.Name)).withObj(fo)
+					}
+					return mk("func", atom(g.Name), recv).withObj(fo)
+				}
+			}
 			return mk("methodval", atom(qname(sel.Obj())), e.eval(x.X))
 		}
 	}
@@ -521,9 +537,12 @@ func (e *evaluator) evalCall(call *ast.CallExpr) *Term {
 		ci.name = "dyn"
 		ci.fun = e.eval(call.Fun)
 		// a function value that resolves to a known literal is a static call
-		if ci.fun.Is("func") && len(ci.fun.A) == 1 {
+		if ci.fun.Is("func") && len(ci.fun.A) >= 1 {
 			if g := e.p.FuncNamed(ci.fun.A[0].At); g != nil {
 				ci.fn = g
+				if len(ci.fun.A) == 2 {
+					ci.recv = ci.fun.A[1]
+				}
 			}
 		}
 		result = &Term{Op: "dyn", A: append([]*Term{ci.fun}, ci.args...)}
